@@ -189,7 +189,7 @@ func (r Condition) SetOperator(op Operator) Condition {
 }
 
 func (r *condition) setOperator(op Operator) {
-	if op != nil {
+	if op != nil && !isNilPtr(op) {
 		if len(op.Context()) > 0 && len(op.String()) > 0 {
 			r.op = op
 		}
